@@ -239,7 +239,7 @@ func (t *r13) taint(v ssa.Value, src string) {
 					continue
 				}
 				pk := funcPkgPath(sc)
-				name := sc.Name()
+				name := core.FuncName(sc)
 				switch {
 				case pk == "reflect" && (name == "MakeSlice" || name == "MakeMapWithSize" || name == "MakeChan"):
 					t.sink(v, x, "reflect."+name, src)
@@ -298,13 +298,13 @@ func R13(scopes ...string) func(p *core.Prog) *core.Result {
 					if pk == nil || pk.Name() != "gotype" || f.Signature.Recv() == nil {
 						continue
 					}
-					if f.Name() != "OnArrayStart" && f.Name() != "OnObjectStart" {
+					if core.FuncName(f) != "OnArrayStart" && core.FuncName(f) != "OnObjectStart" {
 						continue
 					}
 					for _, prm := range f.Params[1:] {
 						if b, ok := prm.Type().Underlying().(*types.Basic); ok && b.Kind() == types.Int {
 							sources++
-							t.taint(prm, "the length announced by "+f.Name())
+							t.taint(prm, "the length announced by "+core.FuncName(f))
 						}
 					}
 				}
